@@ -116,6 +116,44 @@ func runSweep(id string, spec *PropSpec, problems []string) ([]map[string]any, [
 	}
 	wg.Wait()
 	out = append(out, res...)
+	// (3) behaviour-preserving refactorings: every rule of the property must
+	// stay silent on them; an alarm here is a defect of the checker
+	refRoot := filepath.Join(*flagVerif, "refactors")
+	rents, _ := os.ReadDir(refRoot)
+	var rjobs []string
+	for _, en := range rents {
+		if en.IsDir() {
+			if _, err := os.Stat(filepath.Join(refRoot, en.Name(), "patch.diff")); err == nil {
+				rjobs = append(rjobs, en.Name())
+			}
+		}
+	}
+	rres := make([]map[string]any, len(rjobs))
+	for i, name := range rjobs {
+		wg.Add(1)
+		go func(i int, name string) {
+			defer wg.Done()
+			sem <- struct{}{}
+			defer func() { <-sem }()
+			e := runSeed(id, filepath.Join(refRoot, name), seedMeta{Name: "refactoring " + name, Needs: "nothing: behaviour is unchanged"}, kf)
+			e["kind"] = "behaviour-preserving refactoring"
+			switch e["result"] {
+			case "MISSED":
+				e["result"] = "silent (as required)"
+			case "caught":
+				e["result"] = "FALSE ALARM of the checker"
+			}
+			rres[i] = e
+		}(i, name)
+	}
+	wg.Wait()
+	for _, e := range rres {
+		if e["result"] == "FALSE ALARM of the checker" {
+			// informational only: the verdict on the repository never depends on the sweep
+			fmt.Printf("SELF-VALIDATION: the rules of %s report the behaviour-preserving %v: %v\n", id, e["name"], e["reported"])
+		}
+	}
+	out = append(out, rres...)
 	sort.SliceStable(out, func(i, j int) bool { return fmt.Sprint(out[i]["name"]) < fmt.Sprint(out[j]["name"]) })
 	return out, problems
 }
